@@ -435,6 +435,60 @@ theorem C08_symbolicate_over_breakpad_total (look : Sym.Look) (extOrder) (hext :
       intro hnil
       exact h2 (by rw [hfr, hnil])
 
+/-- … in particular over **served files**: let every library of the request be either unknown to the helper
+or a `.sym` text with an optional stored `.symindex`, both of ARBITRARY contents, turned into a symbol map by
+C10's `mapStored` (a map that fails to build — not a Breakpad file, no MODULE record, or the excluded ≥ 4 GiB
+index of `C08_breakpad_map_total` — is a load error here). Then `/symbolicate/v5` reaches no panic site, for
+every request. No hypothesis about the files is left. -/
+theorem C08_symbolicate_over_served_files_total (pick : BP.Pick)
+    (files : Sym.Lib → Option (List UInt8 × Option (List UInt8))) (err : Sym.Err)
+    (nm : List UInt8 → String) (fr : BP.Frame → Sym.Frame)
+    (extOrder) (hext : Sym.ExtOrderOk extOrder) (req : Sym.Request) :
+    let look : Sym.Look := fun lib =>
+      match files lib with
+      | none => .error err
+      | some (text, stored) =>
+        match BP.mapStored pick text stored with
+        | .ok ix => .ok fun a =>
+            match BP.lookup text ix a with
+            | .found r => some (C08_bpInfo nm fr r)
+            | _ => none
+        | _ => .error err
+    ∀ site, Sym.queryApi look extOrder req ≠ .error (.panic site) := by
+  intro look
+  apply C08_symbolicate_over_breakpad_total look extOrder hext req nm fr
+  intro lib f hl
+  simp only [look] at hl
+  split at hl
+  · cases hl
+  · rename_i text stored _
+    split at hl
+    · rename_i ix hm
+      cases hl
+      have hlen : ix.addrs.length = ix.entries.length := by
+        unfold BP.mapStored at hm
+        split at hm
+        · cases hm
+        · split at hm
+          · rename_i ix' hst
+            cases hm
+            cases stored with
+            | none => simp at hst
+            | some b => exact BPC.parseSymindex_lengths b _ (by simpa using hst)
+          · unfold BP.mapSelf at hm
+            split at hm
+            · cases hm
+            · split at hm
+              · cases hm
+              · cases hm
+              · split at hm
+                · cases hm
+                · rename_i bytes _ ix' hp
+                  cases hm
+                  exact BPC.parseSymindex_lengths _ _ hp
+      exact ⟨text, ix, hlen, fun a => rfl⟩
+    · cases hl
+
 /-! ### Clauses (a) and (b): the text `Api::query_api` returns -/
 
 /-- **The error object is JSON.** For every message (any bytes: quotes, backslashes, control characters,
